@@ -5,6 +5,7 @@ import syncfam
 from vlib import finish
 
 ASSUME = [
+    "model -> code conformance: the 12636 (inode partition of 5 files, reported / hidden / pruned vector) cases of spec/HardlinkMC.tla are written by TLC with the stream of the model's run; NewFS -> NewFilterFS -> WithHardlinkReset is walked over real files for each and must name exactly those links",
     "filter stacks: 1-2 NewFilterFS layers (include, exclude, follow-paths) over NewFS of a materialised tree with hard-link groups spread over directories; real Send -> real Receive into an empty destination",
     "Open is probed through the same filtered view for every regular file of the unfiltered tree (pattern-only stacks): it must succeed with the file's bytes exactly for the reported regular files",
     "explanation test for the known finding: a mismatch at a path where (or below a directory where) the library's incremental and plain matchers disagree is classified 'explainedByIncrementalMatcher'",
@@ -93,8 +94,29 @@ def _mc(run):
             raise Inconclusive("HardlinkMC sanity configuration %s was not rejected: the model is vacuous" % cfg)
 
 
+def _hlcases(run):
+    """model -> code: TLC writes every (inode partition, status vector) of HardlinkMC with the stream the algorithm model ends in; the
+    driver walks NewFS -> NewFilterFS -> WithHardlinkReset over real files; WalkTrace judges the reset rule and compares"""
+    import os
+    from vlib import Inconclusive, confirm_by_replay, model_disagreements, strip_model
+    gen = os.path.join(run.work, "gen-hl")
+    os.makedirs(gen, exist_ok=True)
+    run.tlc_mc("HardlinkMC", "HardlinkMC_gen.cfg", workers=1, label="TLC enumerates the 12636 (inode partition, status vector) cases of HardlinkMC (N = 5) with the stream of the model's run", env=dict(VERIF_GEN_DIR=gen))
+    n = len([f for f in os.listdir(gen) if f.startswith("hlcase_")])
+    if n != 12636:
+        raise Inconclusive("HardlinkMC case generation wrote %d files, 12636 expected" % n)
+    t, _ = run.drive("hlcases", env=dict(VERIF_GEN_DIR=gen))
+    tr = run.tlc_trace("WalkTrace", t)
+    if tr["lines"] != 12636:
+        raise Inconclusive("hlcases produced %d events, 12636 expected" % tr["lines"])
+    md = model_disagreements(tr)
+    tr["failed"] = strip_model(tr, "C11.")
+    fails = confirm_by_replay(run, "hlcases", "WalkTrace", tr, text_fn=lambda evs, cl: "hard-link names grp=%s st=%s real=%s" % (evs[0]["grp"], evs[0]["st"], evs[0]["real"]))
+    return fails, md
+
+
 def check(run):
-    return syncfam.run_family(run, "C11", "sync", PFX, mc=_mc, extra=["-what", "filtered"], name="sync-filtered", sig=_sig, text=_text,
+    return syncfam.run_family(run, "C11", "sync", PFX, mc=_mc, extra=["-what", "filtered"], name="sync-filtered", sig=_sig, text=_text, more=_hlcases,
                               assumptions=ASSUME, selftests=[
         ("make a link entry name a path that was never sent", _link_to_self),
         ("let Open succeed for a file the filter hides", _open_hidden),
@@ -103,6 +125,14 @@ def check(run):
 
 def replay(run, path):
     run.build()
+    import json as _json
+    d0 = _json.load(open(path))
+    if ((d0.get("events") or [d0])[0]).get("ev") == "HLCase":
+        from vlib import confirm_by_replay, strip_model
+        t, _ = run.drive("hlcases", replay=path)
+        tr = run.tlc_trace("WalkTrace", t, shards=1)
+        tr["failed"] = strip_model(tr, "C11.")
+        return finish(run, "model_checking", confirm_by_replay(run, "hlcases", "WalkTrace", tr), assumptions=ASSUME)
     t, _ = run.drive("sync", replay=path, extra=["-what", "filtered"])
     tr = syncfam.filter_prefix(run.tlc_trace("SyncTrace", t, shards=1), PFX)
     fails = syncfam.confirm_by_replay_prefixed(run, "sync", "SyncTrace", tr, PFX, _sig, _text, ["-what", "filtered"])
